@@ -26,6 +26,11 @@ R6  ``receive()`` concludes "pump ended, no more messages" only inside the await
     ``waiter not in done`` / ``waiter in pending``); membership of the pump TASK in either set establishes nothing
     (both futures can be done when the receiver wakes; seeded s6-c18-3); any other use of the sets is an unknown idiom.
 
+R8  the receive path in the UNBUFFERED mode as well (= C17's ``r1_receive_disconnect``, shared): a ``websocket.disconnect`` event in
+    hand is reported as WebSocketDisconnected, leaves the state terminal by an assignment or a helper that records it with the
+    receiver's flag DOWN (only the pump raises that flag; there is no pump for capacity 0), and the close code reported is taken
+    from the event, not from ``client_disconnected_code`` (seeded s7-c18-1).
+
 ``disconnect_flag_prompt`` (flag raised before the pump's next suspension) is registered under C17 as its R6.
 
 Roles are derived, not named: the queue is the attribute initialised with
@@ -1193,3 +1198,6 @@ def check(run):
                                          'pump\'s stop() - whatever closed/ready say (shared with C17 R3)', floor=12)
     run.rule('R7', r7_receive_ignores_flag, 'the receive path does not consult the sender-side disconnect flag', floor=4)
     run.rule('R6', r6_end_of_stream, 'receive() concludes "no more messages" only when the waiter was not notified or the queue is empty', floor=2)
+    run.rule('R8', _c17.r1_receive_disconnect, 'a disconnect event in hand on the receive path (buffered or not) is reported as WebSocketDisconnected, '
+                                               'leaves the state terminal without relying on the pump\'s flag, and its close code is the event\'s '
+                                               '(part of C17 R1, shared)', floor=5)
